@@ -251,13 +251,13 @@ func init() {}
 
 // Result summarises an exploration.
 type Result struct {
-	Executions  int64
-	Points      int64 // scheduling decisions taken in total (transitions)
-	Bound       int   // preemption bound completed
-	Exhausted   bool  // no alternative left unexplored at any bound (space fully covered)
-	Pruned      int64
-	MaxLen      int
-	Outcomes    map[string]int64
+	Executions   int64
+	Points       int64 // scheduling decisions taken in total (transitions)
+	Bound        int   // preemption bound completed
+	Exhausted    bool  // no alternative left unexplored at any bound (space fully covered)
+	Pruned       int64
+	MaxLen       int
+	Outcomes     map[string]int64
 	StoppedEarly bool
 }
 
